@@ -195,7 +195,7 @@ func infeasible(cs []lin) bool {
 			for _, n := range neg {
 				a, b := p.coef[pick], -n.coef[pick]
 				g := gcd(a, b)
-				r := p.scale(b / g).plus(n, a/g)
+				r := p.scale(b/g).plus(n, a/g)
 				delete(r.coef, pick)
 				add(r)
 			}
